@@ -346,9 +346,25 @@ fn run_time_case(t: &mut Tape, ctx: &mut Ctx) -> Result<CaseOutcome, HarnessErro
             job.limits.time_ms = Some(60);
         }
     }
+    // the other limits may be configured at the same time (the deadline check must not depend on it)
+    let others = t.below(16);
+    if others & 1 != 0 {
+        job.limits.calls = Some(100_000);
+    }
+    if others & 2 != 0 {
+        job.limits.search = Some(100_000);
+    }
+    if others & 4 != 0 {
+        job.limits.depth = Some(1000);
+    }
+    if others & 8 != 0 {
+        job.limits.size = Some(1 << 30);
+    }
+    o.key = fnv(format!("{src}{variant}{others}").as_bytes());
+    o.classes.push(format!("time_other_limits:{}", if others == 0 { "none" } else { "some" }));
     let r = ctx.exec(&job)?;
     let mk = |kind: &str, msg: String| {
-        Failure::new(kind, format!("{msg}\n{src}  output: {:?}", r.output))
+        Failure::new(kind, format!("{msg}\n{src}  limits: {:?}\n  output: {:?}", job.limits, r.output))
             .key("variant", ["zero", "elapsed_then_call", "reset"][variant])
             .direct(json!({"form": "c10_time", "job": job, "variant": variant, "n": n}))
     };
